@@ -542,6 +542,22 @@ fn judge_regular(case: &Value, exps: &[&Value], obs: &Value, engine: &str) -> Ju
             Judgement::Fail(format!("program with a local call was not refused by cranelift_compile (outcome {k})"))
         };
     }
+    if engine != "interp" {
+        // helper addresses are bound at compile time: a program that names an unregistered helper
+        // anywhere - reached or not - must be refused by the compilers (Verifier!CompileOk), and
+        // that is all that is claimed about it
+        let registered: Vec<i64> = arr(&case["helpers"]).iter().map(|v| v.as_i64().unwrap()).collect();
+        let names_unregistered = arr(&case["prog"]).iter().any(|sg| {
+            sg[1][0].as_u64() == Some(0x85) && sg[1][2].as_u64() == Some(0) && !registered.contains(&sg[1][4].as_i64().unwrap())
+        });
+        if names_unregistered {
+            return if k == "cerr" {
+                Judgement::Pass
+            } else {
+                Judgement::Fail(format!("a program naming an unregistered helper must fail compilation, outcome is {k}"))
+            };
+        }
+    }
     let mut reasons = Vec::new();
     for exp in exps {
         let ek = exp["k"].as_str().unwrap();
